@@ -408,13 +408,61 @@ def _fix_order_table(rep, R, fi, p):
     six orders must leave as the columns of (a, b, c) — block k of the result is the variable k of input_space — labelled with input_space."""
     import itertools
     from collections import OrderedDict
-    from ..absdom.listeval import Evaluator, NotEval, Vec1, UNKNOWN
+    from ..absdom.listeval import Evaluator, Model, NotEval, Vec1, UNKNOWN
     from ..absdom.poly import RF
     pname = fi.params[1]
     dims = {"a": 1, "b": 2, "c": 3}
     target = OrderedDict((k, dims[k]) for k in ("a", "b", "c"))
     bad, undecided = [], None
-    for perm in itertools.permutations("abc"):
+
+    class TensorV(Model, Vec1):
+        """the raw tensor of the points: column blocks on the LAST of `rank` axes (rank 2: rows x columns; rank 3: functions x rows x columns, the DeepONet / operator batches)"""
+
+        def __init__(self, blocks, rank, order):
+            Vec1.__init__(self, (RF.atom(c) for c in blocks))
+            self.blocks, self.rank, self.order = list(blocks), rank, list(order)
+
+        def le_getattr(self, name):
+            if name in ("ndim",):
+                return self.rank
+            raise NotEval(f"attribute {name} of the raw tensor")
+
+        def le_subscript(self, idx):
+            idx = idx if isinstance(idx, tuple) else (idx,)
+            axes, k = [], 0
+            for j, x in enumerate(idx):
+                if x is Ellipsis:
+                    k = self.rank - (len(idx) - j - 1)
+                    continue
+                axes.append((k, x))
+                k += 1
+            out = self
+            for ax, x in axes:
+                if isinstance(x, slice) and (x.start, x.stop, x.step) == (None, None, None):
+                    continue
+                if isinstance(x, list) and all(isinstance(c, int) and not isinstance(c, bool) for c in x):
+                    if ax != self.rank - 1:
+                        return TensorV([f"axis {ax} of a rank-{self.rank} batch addressed with column numbers"], self.rank, self.order)
+                    # column numbers of the stored layout -> whole blocks
+                    layout, at = [], 0
+                    for b in self.order:
+                        layout += [(b, i) for i in range(dims[b])]
+                    cols = [layout[c] for c in x if 0 <= c < len(layout)]
+                    blocks, i = [], 0
+                    while i < len(cols):
+                        b = cols[i][0]
+                        w = dims[b]
+                        if cols[i:i + w] == [(b, j) for j in range(w)]:
+                            blocks.append(b)
+                            i += w
+                        else:
+                            blocks.append(f"columns {cols[i:i + w]}")
+                            i += w
+                    out = TensorV(blocks, self.rank, blocks)
+                    continue
+                raise NotEval("raw tensor index")
+            return out
+    for perm, rank in [(p, r) for p in itertools.permutations("abc") for r in (2, 3)]:
         if list(perm) == ["a", "b", "c"]:
             continue
 
@@ -431,7 +479,13 @@ def _fix_order_table(rep, R, fi, p):
                     if e.attr == "space":
                         return base.space
                     if e.attr in ("as_tensor", "_t"):
-                        return Vec1(RF.atom(c) for c in base.cols)
+                        return TensorV(base.cols, rank, base.cols)
+                    if e.attr == "_variable_slices":
+                        out, at = {}, 0
+                        for c in base.cols:
+                            out[c] = slice(at, at + dims[c], None)
+                            at += dims[c]
+                        return out
             if isinstance(e, ast.Subscript):
                 try:
                     base = ev.ev(e.value, f)
@@ -445,6 +499,8 @@ def _fix_order_table(rep, R, fi, p):
             return None
 
         def on_call(e, name, args, kws, ev, f):
+            if name in ("Points", "Points.from_tensor") and args and len(args) == 2 and isinstance(args[0], TensorV) and isinstance(args[1], dict):
+                return _PointsV(list(args[0].blocks), args[1])
             if name in ("Points", "Points.from_tensor") and args and len(args) == 2 and isinstance(args[0], list) and isinstance(args[1], dict):
                 return _PointsV([repr(c) for c in args[0]], args[1])
             if name == "torch.split" and args and isinstance(args[0], Vec1) and len(args) >= 2 and isinstance(args[1], (list, tuple)):
@@ -457,10 +513,10 @@ def _fix_order_table(rep, R, fi, p):
         fr = Evaluator(resolve, on_call).run(fi.node.body, {pname: src})
         got = fr.ret
         if not isinstance(got, _PointsV):
-            undecided = f"order {perm}: result {got!r}"[:100]
+            undecided = f"order {perm}, rank {rank}: result {got!r}"[:100]
             break
         if got.cols != ["a", "b", "c"] or list(got.space.keys()) != ["a", "b", "c"]:
-            bad.append(f"points given as {''.join(perm)} leave with the columns of {''.join(got.cols)} labelled {''.join(got.space.keys())}")
+            bad.append(f"rank-{rank} points given as {''.join(perm)} leave with the columns of {' '.join(got.cols)} labelled {''.join(got.space.keys())}")
     if undecided:
         rep.undecided(R, fi.site(p.ret_node), fi.fq, "return is the input or a name-based selection of it", undecided)
     else:
